@@ -2,6 +2,7 @@ import QcoVerif.Generated.PySrc
 /-
   Line-protocol handler for the mini-Python interpreter:
     py call <LeanName> <value>*     → runs `Py.callFn` of the translated function on the argument values
+    py effects <LeanName> <value>*  → the effects `Py.callEffects` records (attribute/item assignments, calls made as statements)
     py digest                       → `Gen.PySrc.sourceDigest`
     py names                        → translated function names
   Values are prefix-coded token streams:
@@ -82,6 +83,7 @@ def recordedEnv : Env :=
       | "isinstance", [.obj c _ fs, .str want] =>
           some (.bool (c == want || (match lookupField fs ("isinstance:" ++ want) with | some (.bool true) => true | _ => false)))
       | "isinstance", [_, .str _] => some (.bool false)
+      | "OperationGraphNode", [.tuple [.str "operation", op]] => some (.obj "OperationGraphNode" 999999 [("operation", op)])
       -- a constructor / module function the fragment does not know: the structural value (name, arguments…)
       | f, args => if f.contains '.' || (f.front.isUpper) then some (.tuple (.str f :: args)) else Option.none }
 
@@ -97,6 +99,10 @@ def handle (args : List String) : String :=
   match args with
   | ["digest"] => Qco.Gen.PySrc.sourceDigest
   | ["names"] => " ".intercalate (Qco.Gen.PySrc.all.map (·.1))
+  | "effects" :: name :: rest =>
+    match Qco.Gen.PySrc.all.find? (·.1 == name), parseAll rest with
+    | some (_, fn), some vals => showVal (.list (callEffects recordedEnv fn vals))
+    | _, _ => "bad-op"
   | "call" :: name :: rest =>
     match Qco.Gen.PySrc.all.find? (·.1 == name), parseAll rest with
     | some (_, fn), some vals => showVal (callFn recordedEnv fn vals)
